@@ -159,6 +159,11 @@ def build_world(scn, sched=None, observe=None, faults=True):
     w["env"] = dict(scn.get("env", {}))
     if scn.get("fdkind"):
         w["fdkind"] = scn["fdkind"]       # what the non-terminal ends are (pipe, regular file, character device, socket)
+    for k in ("cap", "alarm_s"):
+        if scn.get(k):
+            w[k] = scn[k]
+    if scn.get("probe_light"):
+        w["probe"] = 2
     w["files"] = files
     if stdin_script and scn.get("script") is not None:
         w["stdin"]["data"] = "0x" + scn["script"] + scn.get("stdin_eol", "\n")
